@@ -24,7 +24,9 @@ SPEC = {
     ("Async.PartitionTOProofs", "partition_cb_not_early"), ("Async.MapAsyncProofs", "map_async_cb_not_early"),
     ("Async.ZipBPProofs", "zip_cb_not_early_buffered"), ("Async.ZipBPProofs", "zip_cb_early_refuted"),
     ("Async.Plain", "plain_cb_early_refuted"), ("Base.BridgeRefCounter", "bridge_rc_release_async"),
-    ("Base.BridgeRefCounter", "bridge_rc_retain_async")]),
+    ("Base.BridgeRefCounter", "bridge_rc_retain_async"),
+    # Stream._retain_refs / _release_refs regenerated from the source (harness/gen_emit.py) are the model's retain / release
+    ("Base.BridgeEmit", "bridge_retain_refs"), ("Base.BridgeEmit", "bridge_release_refs")]),
  "C08": ("time windows conserve elements and honour their deadline",
    [("Async.TimedWindowProofs", "tw_conserve"), ("Async.TimedWindowProofs", "tw_unique_keys"),
     ("Async.TimedWindowProofs", "tw_deadline"), ("Async.TimedWindowProofs", "tw_sync_never_awaits"),
